@@ -193,14 +193,19 @@ func c10gRun(r *vrt.Run, c c10gCase) (fs []vrt.Finding) {
 	fresh := c10gFresh(c.Conf, c.Q)
 	dropped := len(o.Writes) == 0
 	freshDropped := len(fresh.Writes) == 0 && fresh.Err == "" && len(fresh.Touched) == 0
-	if want == c10Either || (want == c10Blocked) != freshDropped {
-		vrt.Fatalf("realgeo: on a fresh stack %s is %s by the oracle but observed %s", c10Desc(c10Case{Conf: c.Conf, Q: c.Q}), want, fresh)
+	if want == c10Either {
+		vrt.Fatalf("realgeo: ambiguous request %s in the alphabet", c10Desc(c10Case{Conf: c.Conf, Q: c.Q}))
+	}
+	if want == c10Served && c.Q.Ctx == "" && freshDropped {
+		// Both stacks drop it: the comparison below would not see it.
+		fs = append(fs, vrt.F("realgeo/unblocked-request-dropped",
+			"no rule rejects %s but it is dropped on a fresh stack over the real GeoIP database: %s", c10Desc(c10Case{Conf: c.Conf, Q: c.Q}), fresh)...)
 	}
 	outcome := "answered"
 	if dropped {
 		outcome = "dropped"
 	}
-	r.Class(fmt.Sprintf("realgeo %s/%s/%s primes=%d -> %s", want, reason, c.Q.Proto, len(c.Prime), outcome))
+	r.Class(fmt.Sprintf("realgeo %s/%s/%s ctx=%q primes=%d -> %s", want, reason, c.Q.Proto, c.Q.Ctx, len(c.Prime), outcome))
 	r.State(fmt.Sprintf("realgeo|%v|%s", hist, o.cmp()))
 
 	desc := fmt.Sprintf("%s after the queries of other clients %q on the same stack", c10Desc(c10Case{Conf: c.Conf, Q: c.Q}), hist)
@@ -217,6 +222,8 @@ func c10gRun(r *vrt.Run, c c10gCase) (fs []vrt.Finding) {
 		}
 	case c10Served:
 		switch {
+		case c.Q.Ctx != "":
+			// Dead context, no rule rejects: not judged.
 		case o.cmp() == fresh.cmp():
 		case dropped && len(o.Touched) == 0:
 			fs = append(fs, vrt.F("realgeo/unblocked-request-dropped",
@@ -266,28 +273,30 @@ func c10gPart(r *vrt.Run) {
 				conf := c10Config{Prof: "cfg", PA: pa}
 				for _, proto := range c10Protos {
 					for _, t := range c10gTargets {
-						q := c10Query{Client: t.addr, ASN: t.asn, Name: "clean.test.", QType: dns.TypeA, Proto: proto}
-						// Queries of an anonymous NEIGHBOUR of the client (same
-						// cache network, same database record), which no rule
-						// rejects: without ECS, with an ECS option whose network
-						// has no location (the client's location is then used),
-						// and with an ECS option of the other address family;
-						// over every protocol.
-						all := append([]c10Query{}, primes...)
-						for _, nproto := range c10Protos {
-							for _, e := range c10gNeighbourECS(t.neighbour) {
-								all = append(all, c10Query{
-									Client: t.neighbour, ASN: t.asn, Name: "other.test.", QType: dns.TypeA, Proto: nproto, ECS: e, Anonymous: true,
-								})
+						for _, kind := range []string{"", "cancelled", "cancel-in-lookup"} {
+							q := c10Query{Client: t.addr, ASN: t.asn, Name: "clean.test.", QType: dns.TypeA, Proto: proto, Ctx: kind}
+							// Queries of an anonymous NEIGHBOUR of the client (same
+							// cache network, same database record), which no rule
+							// rejects: without ECS, with an ECS option whose network
+							// has no location (the client's location is then used),
+							// and with an ECS option of the other address family;
+							// over every protocol.
+							all := append([]c10Query{}, primes...)
+							for _, nproto := range c10Protos {
+								for _, e := range c10gNeighbourECS(t.neighbour) {
+									all = append(all, c10Query{
+										Client: t.neighbour, ASN: t.asn, Name: "other.test.", QType: dns.TypeA, Proto: nproto, ECS: e, Anonymous: true,
+									})
+								}
 							}
+							vrt.Sequences(len(all), 1, maxPrime, func(seq []int) {
+								c := c10gCase{Conf: conf, Q: q}
+								for _, i := range seq {
+									c.Prime = append(c.Prime, all[i])
+								}
+								emit(c)
+							})
 						}
-						vrt.Sequences(len(all), 1, maxPrime, func(seq []int) {
-							c := c10gCase{Conf: conf, Q: q}
-							for _, i := range seq {
-								c.Prime = append(c.Prime, all[i])
-							}
-							emit(c)
-						})
 					}
 				}
 			}
